@@ -866,6 +866,10 @@ def _b4(kind, par=None):
             full = numpy.asarray(cen.centre_of_gravity(stack4.copy(), threshold=par))
             one = lambda im: numpy.asarray(cen.centre_of_gravity(im.copy(), threshold=par))
             pick = lambda i, j: full[:, i, j]
+        elif kind == "bp":
+            full = numpy.asarray(cen.brightest_pixel(stack4.copy(), par))
+            one = lambda im: numpy.asarray(cen.brightest_pixel(im.copy(), par))
+            pick = lambda i, j: full[:, i, j]
         elif kind == "quad":
             s2 = stack4[..., :2, :2]
             full = numpy.asarray(cen.quadCell(s2.copy()))
@@ -881,13 +885,13 @@ def _b4(kind, par=None):
             full = numpy.asarray(fn(cast(stack4), 0.5))
             one = lambda im: numpy.asarray(fn(cast(im), 0.5))
             pick = lambda i, j: full[i, j]
-        if full.ndim < 3 or (kind in ("cog", "quad") and full.shape != (2, a, b)):
+        if full.ndim < 3 or (kind in ("cog", "quad", "bp") and full.shape != (2, a, b)):
             raise ValueError("result of shape %s for a batch of shape %s" % (full.shape, stack4.shape))
         return [pick(i, j) for i in range(a) for j in range(b)], [one(stack4[i, j]) for i in range(a) for j in range(b)]
     return f
 
 
-BATCH4 = {"centre_of_gravity": _b4("cog", 0), "centre_of_gravity:thr=0.3": _b4("cog", 0.3), "quadCell": _b4("quad"),
+BATCH4 = {"brightest_pixel": _b4("bp", 0.3), "centre_of_gravity": _b4("cog", 0), "centre_of_gravity:thr=0.3": _b4("cog", 0.3), "quadCell": _b4("quad"),
           "binImgs": _b4("bin"), "ft2": _b4("ft2"), "ift2": _b4("ift2"), "rft2": _b4("rft2")}
 
 
